@@ -212,7 +212,20 @@ def cond_paths(test: ast.expr) -> List[Tuple[Tuple[Tuple[ast.expr, bool], ...], 
         return acc
     if isinstance(test, ast.Constant):
         return [(((test, bool(test.value)),), bool(test.value))]   # 'while True', a helper's 'return False'
+    if isinstance(test, ast.Compare) and len(test.ops) > 1 and all(isinstance(c, (ast.Name, ast.Constant, ast.Attribute)) for c in test.comparators[:-1]):
+        # a <= b <= c  ==  a <= b and b <= c  (the middle operand is evaluated once; it has no effect here)
+        key = id(test)
+        if key not in _CHAINED:
+            parts, left = [], test.left
+            for op, right in zip(test.ops, test.comparators):
+                parts.append(ast.copy_location(ast.Compare(left=left, ops=[op], comparators=[right]), test))
+                left = right
+            _CHAINED[key] = (test, ast.copy_location(ast.BoolOp(op=ast.And(), values=parts), test))
+        return cond_paths(_CHAINED[key][1])
     return [(((test, True),), True), (((test, False),), False)]
+
+
+_CHAINED: Dict[int, Tuple[ast.expr, ast.expr]] = {}
 
 
 # Inlining policy: (call node, calling function) -> package function whose body is spliced into the path, or None.
